@@ -884,7 +884,9 @@ class BaseInterpreter(Generic[TContext, TEvent]):
         #    ancestors); fall back to leaf ids for snapshots written by
         #    older versions.
         interpreter._active_state_nodes.clear()
-        restore_ids = snapshot.get("configuration") or snapshot["state_ids"]
+        restore_ids = (
+            snapshot.get("configuration") or snapshot.get("state_ids") or []
+        )
         for state_id in restore_ids:
             node = machine.get_state_by_id(state_id)
             if node:
@@ -1008,6 +1010,10 @@ class BaseInterpreter(Generic[TContext, TEvent]):
             fail("'state_ids' must be a list of state ids")
         if not has_configuration and "state_ids" not in snapshot:
             fail("one of 'configuration' or 'state_ids' is required")
+        if snapshot["status"] == "running" and not (
+            snapshot.get("configuration") or snapshot.get("state_ids")
+        ):
+            fail("a running snapshot must name at least one active state")
         history = snapshot.get("history")
         if history is not None and not (
             isinstance(history, dict)
